@@ -8,7 +8,7 @@ import random
 
 HEADER = '''\
 from guppylang import guppy
-from guppylang.std.builtins import panic
+from guppylang.std.builtins import array, panic
 
 
 @guppy.declare
@@ -29,6 +29,17 @@ def ff(a: int) -> float: ...
 
 @guppy.declare
 def emit(a: int) -> None: ...
+
+
+@guppy
+def mk3(a: int) -> array[int, 3]:
+    return array(f(a), a + 1, a + 2)
+
+
+@guppy
+def bump(xs: array[int, 3], i: int) -> int:
+    xs[i] += 1
+    return xs[i]
 
 '''
 
@@ -177,6 +188,31 @@ def gen_program(kind: str, idx: int, seed: int) -> str:
 
 
 C03_FIXED = [
+    """
+def r0(x: int, y: int) -> int:
+    xs = array(x, y, x + y)
+    i = 0
+    while i < 3:
+        if xs[i] < 0:
+            xs[i] = -xs[i]
+        else:
+            xs[i] += i
+        i += 1
+    t = len(xs)
+    for v in xs:
+        t = t * 7 + v
+    return t
+""",
+    """
+def r1(x: int, y: int) -> int:
+    m = array(array(x, 1), array(y, 2))
+    m[x % 2][y % 2] += 5
+    a = m[1][1]
+    m[1][1] = m[0][0]
+    m[0][0] = a
+    ys = mk3(y)
+    return bump(ys, x % 3) + ys[x % 3] + m[0][0] + m[0][1] * 10 + m[1][0] * 100 + m[1][1] * 1000
+""",
     """
 def q9(x: int, y: int) -> int:
     n = 0
@@ -329,6 +365,58 @@ def q5(x: int, y: int) -> int:
 ]
 
 C05_FIXED = [
+    """
+def a0(x: int, y: int) -> int:
+    xs = array(f(1), g(2), h(3))
+    xs[g(4) % 3] = f(5)
+    t = xs[f(6) % 3] + xs[0] + len(xs)
+    xs[h(7) % 3] += g(8)
+    for v in xs:
+        emit(v)
+    return t
+""",
+    """
+def a1(x: int, y: int) -> int:
+    xs = array(10, 20, 30)
+    t = bump(xs, f(1) % 3) + xs[g(2) % 3]
+    i = 0
+    while i < 3:
+        xs[i] = xs[i] * 2 + h(i)
+        i += 1
+    emit(xs[x % 3])
+    return t + xs[0] + xs[1] + xs[2]
+""",
+    """
+def a2(x: int, y: int) -> int:
+    t = array(10, 20, 30)[f(0) % 3]
+    ys = mk3(g(1))
+    emit(ys[h(2) % 3])
+    u = ys[f(3) % 3] if y > 0 else ys[0] + g(4)
+    return t + u
+""",
+    """
+def a3(x: int, y: int) -> int:
+    return mk3(x)[g(2) % 3] + h(1)
+""",
+    """
+def a4(x: int, y: int) -> int:
+    m = array(array(1, 2), array(3, 4))
+    m[f(0) % 2][1] += h(2)
+    m[1][g(3) % 2] -= f(4)
+    t = m[x % 2][g(5) % 2]
+    return t + m[0][0] + m[0][1] * 10 + m[1][0] * 100 + m[1][1] * 1000
+""",
+    """
+def a5(x: int, y: int) -> int:
+    m = array(array(1, 2), array(3, 4))
+    return m[f(0) % 2][g(1) % 2]
+""",
+    """
+def a6(x: int, y: int) -> int:
+    m = array(array(1, 2), array(3, 4))
+    m[f(0) % 2][g(1) % 2] = h(2)
+    return m[0][0] + m[0][1] * 10 + m[1][0] * 100 + m[1][1] * 1000
+""",
     """
 def e12(x: int, y: int) -> int:
     a = f(1) + ff(2)
